@@ -247,6 +247,28 @@ def float_traces(ctx: Ctx, n: int) -> list[dict]:
         except Exception as ex:
             ctx.violation("brent:float:raises", f"BrentsRootFinder raised {type(ex).__name__} on a sign-changing bracket", {"kind": kind, "a": a, "b": b, "tol": tol, "eps": eps})
             continue
+        # the public entry point with the same inputs: its result must lie in the bracket, within `tol` of the (only) sign change;
+        # every kind above changes sign exactly at `root` (the adversarial kind draws magnitudes at random, so it is left to the loop)
+        if kind != "adversarial" and done:
+            from emu_base.math.brents_root_finding import find_root_brents
+            nq = {"n": 0}
+
+            def fcount(x, _f=f, _c=nq):
+                _c["n"] += 1
+                if _c["n"] > 2000:
+                    raise RuntimeError("more than 2000 evaluations")
+                return _f(x)
+            try:
+                xr = find_root_brents(fcount, start=a, end=b, f_start=fa, f_end=fb, tolerance=tol, epsilon=eps)
+                slack = 4 * 2.220446049250313e-16 * max(abs(a), abs(b), 1.0)
+                if not (min(a, b) <= xr <= max(a, b)):
+                    ctx.violation("brent:public:result-outside-bracket", f"find_root_brents returned {xr!r} outside [{a!r}, {b!r}]", {"kind": kind, "a": a, "b": b, "tol": tol, "eps": eps, "root": root})
+                elif abs(xr - root) > tol + slack:
+                    ctx.violation("brent:public:result-not-within-tolerance-of-the-sign-change",
+                                  f"find_root_brents(tolerance={tol!r}, epsilon={eps!r}) returned {xr!r}; the only sign change is at {root!r}: distance {abs(xr - root):.3e} > tolerance",
+                                  {"kind": kind, "a": a, "b": b, "tol": tol, "eps": eps, "root": root, "returned": xr})
+            except Exception as ex:
+                ctx.violation("brent:public:raises", f"find_root_brents raised {type(ex).__name__}: {ex}", {"kind": kind, "a": a, "b": b, "tol": tol, "eps": eps})
         raw.append(o.current_guess)
         rk = rank_map(raw)
         sg = lambda v: (v > 0) - (v < 0)
